@@ -400,7 +400,7 @@ Proof.
     specialize (I1 c). unfold tot, G in I1. lia. }
   assert (C1 : CancOK s1) by (apply (canc_same_clos s); [reflexivity|exact I2]).
   assert (H1 : T s1 t = Some old) by exact H.
-  destruct (negb (negb (exit_ s)) && negb (is_cur s t) && negb (stopped s)).
+  destruct (negb (negb (exit_ s)) && negb (is_cur a) && negb (stopped s)).
   - cbn [fst]. constructor.
     + intros c. pose proof (tot_with_thr s1 t (SWait l (queue s) a') old c H1) as E. cbn [qof] in E.
       specialize (TX c). unfold with_thr at 2. cbn [clos]. change (clos s1) with (clos s) in *. lia.
@@ -527,3 +527,612 @@ Qed.
 
 Theorem inva_reachable ops s : reachable ops s -> InvA s.
 Proof. induction 1; [apply inva_init|apply inva_step; assumption]. Qed.
+
+(* ---------- what the pieces of a step do to everything except the closure counters ---------- *)
+Definition fin_pc (t : nat) (first : bool) (a : after) : pc := if first then SFin a else pc_after t a.
+Definition is_dtor (a : after) : bool := match a with ADtor => true | _ => false end.
+
+(* the fields stop_end / returned / drop never change *)
+Definition env_eq (s s' : st) : Prop :=
+  exit_ s' = exit_ s /\ stopped s' = stopped s /\ threads s' = threads s /\ tokens s' = tokens s /\ woken s' = woken s /\
+  nclients s' = nclients s /\ cont s' = cont s /\ extw s' = extw s /\ uad s' = uad s.
+Definition gkeep (s s' : st) : Prop :=
+  (forall c, G cb [] s' c = G cb [] s c) /\ (forall c, G cran 0 s' c = G cran 0 s c) /\
+  (forall c, G cran_on 0 s' c = G cran_on 0 s c) /\ length (clos s') = length (clos s).
+
+Lemma drop_env t s l : env_eq s (fst (drop_all t s l)) /\ gkeep s (fst (drop_all t s l)) /\
+  queue (fst (drop_all t s l)) = queue s /\ destroyed (fst (drop_all t s l)) = destroyed s /\
+  thrs (fst (drop_all t s l)) = thrs s.
+Proof.
+  destruct (drop_all_rel t s l) as [h r o b d cc].
+  destruct h as (hq & he & ht & hk & hd & hn & hth & hl & hs & hw & hc & hx & hu).
+  unfold env_eq, gkeep. repeat split; auto.
+Qed.
+
+Lemma returned_shell s t a : forall s', s' = fst (returned s t a) ->
+  env_eq s s' /\ gkeep s s' /\
+  queue s' = (if is_dtor a then [] else queue s) /\
+  destroyed s' = (if is_dtor a then true else destroyed s) /\
+  thrs s' = set_nth (thrs s) t (pc_after t a).
+Proof.
+  intros s' ->. unfold returned.
+  destruct a as [prog| |d r].
+  - cbn [fst is_dtor]. unfold env_eq, gkeep, with_thr. cbn. repeat split; auto.
+  - destruct (drop_env t s (queue s)) as (E & K & Q & D & Th).
+    destruct (drop_all t s (queue s)) as [s1 e]. cbn [fst] in *. cbn [is_dtor pc_after].
+    unfold env_eq, gkeep, with_thr, dead in *. cbn [queue exit_ stopped threads tokens woken destroyed nclients clos thrs cont extw uad].
+    rewrite Th. unfold G in *. cbn [clos]. intuition.
+  - cbn [fst is_dtor]. unfold env_eq, gkeep, with_thr. cbn. repeat split; auto.
+Qed.
+
+Lemma env_trans a b c : env_eq a b -> env_eq b c -> env_eq a c.
+Proof. unfold env_eq. intuition congruence. Qed.
+Lemma gkeep_trans a b c : gkeep a b -> gkeep b c -> gkeep a c.
+Proof.
+  unfold gkeep. intros (x1 & x2 & x3 & x4) (y1 & y2 & y3 & y4). split; [|split; [|split]].
+  - intros. rewrite y1, x1. reflexivity.
+  - intros. rewrite y2, x2. reflexivity.
+  - intros. rewrite y3, x3. reflexivity.
+  - congruence.
+Qed.
+
+Lemma stop_end_shell s t q first a : forall s', s' = fst (stop_end s t q first a) ->
+  env_eq s s' /\ gkeep s s' /\
+  queue s' = (if negb first && is_dtor a then [] else queue s) /\
+  destroyed s' = (if negb first && is_dtor a then true else destroyed s) /\
+  thrs s' = set_nth (thrs s) t (fin_pc t first a).
+Proof.
+  intros s' ->. unfold stop_end.
+  destruct (drop_env t s q) as (E & K & Q & D & Th).
+  destruct (drop_all t s q) as [s1 e]. cbn [fst] in *.
+  destruct first; cbn [negb andb fin_pc].
+  - cbn [fst]. unfold env_eq, gkeep, with_thr in *. cbn [queue exit_ stopped threads tokens woken destroyed nclients clos thrs cont extw uad].
+    rewrite Th. unfold G in *. cbn [clos]. intuition.
+  - destruct (returned_shell s1 t a _ eq_refl) as (E2 & K2 & Q2 & D2 & Th2).
+    destruct (returned s1 t a) as [s2 e2]. cbn [fst] in *.
+    split; [eapply env_trans; eassumption|]. split; [eapply gkeep_trans; eassumption|].
+    rewrite Q2, D2, Th2, Q, D, Th. auto.
+Qed.
+
+Lemma after_wait_shell s t l q first a : forall s', s' = fst (after_wait s t l q first a) ->
+  env_eq s s' /\ gkeep s s' /\
+  queue s' = (if (match l with [] => true | _ => false end) && negb first && is_dtor a then [] else queue s) /\
+  destroyed s' = (if (match l with [] => true | _ => false end) && negb first && is_dtor a then true else destroyed s) /\
+  thrs s' = set_nth (thrs s) t (match l with [] => fin_pc t first a | _ => Join l q first a end).
+Proof.
+  intros s' ->. unfold after_wait. destruct l as [|w l].
+  - cbn [andb]. apply (stop_end_shell s t q first a). reflexivity.
+  - cbn [fst andb]. unfold env_eq, gkeep, with_thr. cbn. repeat split; auto.
+Qed.
+
+Lemma enqueue_shell s t l k b : forall s', s' = fst (enqueue s t l k b) ->
+  queue s' = (if exit_ s then queue s else queue s ++ [length (clos s)]) /\ exit_ s' = exit_ s /\ stopped s' = stopped s /\
+  threads s' = threads s /\
+  tokens s' = (if exit_ s then tokens s else if Nat.ltb (tokens s + length (woken s)) (sleepers s) then S (tokens s) else tokens s) /\
+  woken s' = woken s /\ destroyed s' = destroyed s /\ nclients s' = nclients s /\ thrs s' = thrs s /\
+  cont s' = cont s /\ extw s' = extw s /\ uad s' = uad s /\ length (clos s') = S (length (clos s)) /\
+  (forall c, G cb [] s' c = if Nat.eqb c (length (clos s)) then b else G cb [] s c) /\
+  (forall c, G cran 0 s' c = if Nat.eqb c (length (clos s)) then 0 else G cran 0 s c) /\
+  (forall c, G cran_on 0 s' c = if Nat.eqb c (length (clos s)) then 0 else G cran_on 0 s c).
+Proof.
+  intros s' ->. unfold enqueue.
+  set (s1 := with_clos s (clos s ++ [mkClo l k b 0 0 0 0])).
+  assert (L1 : length (clos s1) = S (length (clos s))) by (unfold s1, with_clos; cbn [clos]; rewrite app_length; cbn; lia).
+  destruct (exit_ s) eqn:EX.
+  - pose proof (drop1_rel t s1 [] (length (clos s))) as D.
+    destruct D as [h r o bb d cc]. destruct h as (hq & he & ht & hk & hd & hn & hth & hl & hs & hw & hc & hx & hu).
+    rewrite hq, he, ht, hk, hd, hn, hth, hl, hs, hw, hc, hx, hu, L1.
+    unfold s1 at 1 2 3 4 5 6 7 8 9 10 11 12. cbn [with_clos queue exit_ stopped threads tokens woken destroyed nclients thrs cont extw uad].
+    repeat split; auto; intros c; [rewrite bb|rewrite r|rewrite o]; unfold s1; rewrite G_app; reflexivity.
+  - cbn [fst]. unfold with_tokens, with_queue. cbn [queue exit_ stopped threads tokens woken destroyed nclients thrs cont extw uad clos].
+    repeat split; auto; intros c; unfold G at 1; cbn [clos];
+      [fold (G cb [] s1 c)|fold (G cran 0 s1 c)|fold (G cran_on 0 s1 c)]; unfold s1; rewrite G_app; reflexivity.
+Qed.
+
+(* ---------- invariant B: basic safety facts ---------- *)
+Definition is_client_after (a : after) : bool := match a with AWorker _ _ => false | _ => true end.
+Definition is_client (p : pc) : bool :=
+  match p with
+  | CAt _ | CXWait | CDtor | CDone => true
+  | Join _ _ _ a | SWait _ _ a | SFin a => is_client_after a
+  | _ => false
+  end.
+Definition in_stop (p : pc) : bool := match p with Join _ _ _ _ | SWait _ _ _ | SFin _ => true | _ => false end.
+
+(* the thread found its own entry in _threads, detached it and reset _current *)
+Definition det_after (a : after) : bool := match a with AWorker true _ => true | _ => false end.
+Definition det_of (p : pc) : bool := match p with Join _ _ _ a | SWait _ _ a | SFin a => det_after a | _ => false end.
+
+Record InvB (s : st) : Prop := {
+  b_exit : exit_ s = true -> queue s = [] /\ threads s = [];
+  b_destr : destroyed s = true -> exit_ s = true /\ stopped s = true;
+  b_stopped : stopped s = true -> exit_ s = true;
+  b_ncl : 0 < nclients s <= length (thrs s);
+  b_class : forall i p, T s i = Some p -> (nclients s <= i -> is_client p = false) /\ (i < nclients s -> p <> WExit);
+  b_done0 : T s 0 = Some CDone -> destroyed s = true;
+  b_ran : forall c, 1 <= G cran 0 s c ->
+            G cran_on 0 s c < length (thrs s) /\ (nclients s <= G cran_on 0 s c \/ In (G cran_on 0 s c) (extw s));
+  b_join : forall i p, T s i = Some p -> in_stop p = true -> exit_ s = true;
+  b_first : forall i l q f a, T s i = Some (Join l q f a) -> f = true;
+  b_swait : forall i l q a, T s i = Some (SWait l q a) -> l = [] /\ q = [] /\ is_cur a = false;
+  b_thr : forall w, In w (threads s) -> nclients s <= w < length (thrs s);
+  b_ext : forall i p, T s i = Some p -> i < nclients s -> is_client p = false -> In i (extw s);
+  b_det : forall i p, T s i = Some p -> i < nclients s -> det_of p = false
+}.
+
+Lemma TT_set s s' i p old : T s i = Some old -> thrs s' = set_nth (thrs s) i p ->
+  forall j, T s' j = if Nat.eqb i j then Some p else T s j.
+Proof.
+  intros H Et j. pose proof (T_lt s i old H) as L. unfold T. rewrite Et. destruct (Nat.eqb_spec i j) as [E|E].
+  - subst. apply nth_error_set_nth_same. exact L.
+  - apply nth_error_set_nth_other. exact E.
+Qed.
+
+Definition RanOK (s : st) (n : nat) (m : nat) (x : list nat) : Prop :=
+  forall c, 1 <= G cran 0 s c -> G cran_on 0 s c < n /\ (m <= G cran_on 0 s c \/ In (G cran_on 0 s c) x).
+
+Lemma invb_frame s s' i p old : InvB s -> T s i = Some old ->
+  thrs s' = set_nth (thrs s) i p -> nclients s' = nclients s ->
+  (nclients s <= i -> is_client p = false) -> (i < nclients s -> p <> WExit) ->
+  (exit_ s' = true -> queue s' = [] /\ threads s' = []) ->
+  (destroyed s' = true -> exit_ s' = true /\ stopped s' = true) ->
+  (stopped s' = true -> exit_ s' = true) ->
+  (i = 0 -> p = CDone -> destroyed s' = true) -> (destroyed s = true -> destroyed s' = true) ->
+  RanOK s' (length (thrs s)) (nclients s) (extw s') ->
+  (exit_ s = true -> exit_ s' = true) -> (in_stop p = true -> exit_ s' = true) ->
+  (forall l q f a, p = Join l q f a -> f = true) ->
+  (forall l q a, p = SWait l q a -> l = [] /\ q = [] /\ is_cur a = false) ->
+  (threads s' = threads s \/ threads s' = []) ->
+  (i < nclients s -> is_client p = false -> In i (extw s')) -> (forall z, In z (extw s) -> In z (extw s')) ->
+  (i < nclients s -> det_of p = false) ->
+  InvB s'.
+Proof.
+  intros [B1 B2 B3 B4 B5 B6 B7 B8 B9 B10 B11 B12 B13] H Et En Pc1 Pc2 X1 X2 X3 X4 X5 X6 X7 X8 X9 X10 X11 X12 X13 X14.
+  pose proof (TT_set s s' i p old H Et) as TT.
+  assert (LEN : length (thrs s') = length (thrs s)) by (rewrite Et; apply set_nth_length).
+  constructor; auto.
+  - rewrite En, LEN. exact B4.
+  - intros j pj. rewrite TT, En. destruct (Nat.eqb_spec i j) as [E|E].
+    + intros Q. inversion Q; subst. auto.
+    + apply B5.
+  - rewrite TT. destruct (Nat.eqb_spec i 0) as [E|E].
+    + intros Q. inversion Q. apply X4; auto.
+    + intros Q. apply X5, B6, Q.
+  - intros c Hc. rewrite En, LEN. apply X6, Hc.
+  - intros j pj. rewrite TT. destruct (Nat.eqb_spec i j) as [E|E].
+    + intros Q. inversion Q; subst. exact X8.
+    + intros Q I. eapply X7, B8; eassumption.
+  - intros j l q f a. rewrite TT. destruct (Nat.eqb_spec i j) as [E|E].
+    + intros Q. inversion Q. eapply X9; eauto.
+    + apply B9.
+  - intros j l q a. rewrite TT. destruct (Nat.eqb_spec i j) as [E|E].
+    + intros Q. inversion Q. eapply X10; eauto.
+    + apply B10.
+  - intros w Hin. rewrite En, LEN. destruct X11 as [F|F]; rewrite F in Hin; [apply B11, Hin|contradiction].
+  - intros j pj. rewrite TT, En. destruct (Nat.eqb_spec i j) as [E|E].
+    + intros Q. inversion Q; subst. auto.
+    + intros Q L C. apply X13. eapply B12; eassumption.
+  - intros j pj. rewrite TT, En. destruct (Nat.eqb_spec i j) as [E|E].
+    + intros Q. inversion Q; subst. auto.
+    + apply B13.
+Qed.
+
+Lemma set_nth_same_id {A} (l : list A) : forall i x, nth_error l i = Some x -> set_nth l i x = l.
+Proof. induction l as [|y l IH]; intros [|i] x H; cbn in *; try discriminate; [inversion H; reflexivity|f_equal; auto]. Qed.
+Lemma plain_det p : in_stop p = false -> det_of p = false.
+Proof. destruct p; cbn; congruence. Qed.
+
+Lemma next_client_client i r : is_client (next_client i r) = true.
+Proof. unfold next_client. destruct r; [destruct (Nat.eqb i 0)|]; reflexivity. Qed.
+Lemma next_client_plain i r : in_stop (next_client i r) = false /\ next_client i r <> WExit /\
+  (i = 0 -> next_client i r <> CDone).
+Proof. unfold next_client. destruct r; [destruct (Nat.eqb_spec i 0)|]; repeat split; try discriminate; intros; try discriminate; lia. Qed.
+Lemma job_next_plain r : in_stop (job_next r) = false /\ job_next r <> WExit /\ job_next r <> CDone /\ is_client (job_next r) = false.
+Proof. destruct r as [|[] r]; repeat split; discriminate. Qed.
+
+(* who may be where: thread i's current pc tells whether it is a client thread *)
+Lemma client_lt s i p : InvB s -> T s i = Some p -> is_client p = true -> i < nclients s.
+Proof.
+  intros B H C. destruct (Nat.ltb_spec i (nclients s)); [assumption|].
+  destruct (b_class s B i p H) as [X _]. rewrite (X H0) in C. discriminate.
+Qed.
+
+Lemma ranok_same s s' n m x : (forall c, G cran 0 s' c = G cran 0 s c) -> (forall c, G cran_on 0 s' c = G cran_on 0 s c) ->
+  RanOK s n m x -> RanOK s' n m x.
+Proof. intros E1 E2 R c. rewrite E1, E2. apply R. Qed.
+Lemma ranok_of s : InvB s -> RanOK s (length (thrs s)) (nclients s) (extw s).
+Proof. intros B. exact (b_ran s B). Qed.
+Lemma ranok_ext s n m x y : RanOK s n m x -> (forall z, In z x -> In z y) -> RanOK s n m y.
+Proof. intros R S c Hc. destruct (R c Hc) as [A [Bq|Bq]]; auto. Qed.
+
+(* a thread moves to a plain pc; nothing else changes *)
+Lemma invb_same s i p old : InvB s -> T s i = Some old ->
+  (nclients s <= i -> is_client p = false) -> (i < nclients s -> p <> WExit) -> (i = 0 -> p <> CDone) ->
+  (in_stop p = true -> in_stop old = true) ->
+  (forall l q f a, p = Join l q f a -> f = true) -> (forall l q a, p <> SWait l q a) ->
+  (is_client p = false -> is_client old = false) ->
+  (i < nclients s -> det_of p = false) ->
+  InvB (with_thr s i p).
+Proof.
+  intros B H P1 P2 P3 P4 P5 P6 P7 P8.
+  apply (invb_frame s _ i p old B H); unfold with_thr; cbn [queue exit_ stopped threads tokens woken destroyed nclients thrs extw]; auto.
+  - apply (b_exit s B).
+  - apply (b_destr s B).
+  - apply (b_stopped s B).
+  - intros E Q. exfalso. apply (P3 E Q).
+  - apply (ranok_same s); [reflexivity|reflexivity|exact (b_ran s B)].
+  - intros X. apply (b_join s B i old H). auto.
+  - intros l q a E. exfalso. eapply P6, E.
+  - intros L C. apply (b_ext s B i old H L). auto.
+Qed.
+
+Lemma invb_enqueue s i l k b p old : InvB s -> T s i = Some old ->
+  (nclients s <= i -> is_client p = false) -> (i < nclients s -> p <> WExit) -> (i = 0 -> p <> CDone) ->
+  in_stop p = false -> (is_client p = false -> is_client old = false) ->
+  InvB (with_thr (fst (enqueue s i l k b)) i p).
+Proof.
+  intros B H P1 P2 P3 P4 P7.
+  destruct (enqueue_shell s i l k b _ eq_refl) as (hq & he & hs & ht & hk & hw & hd & hn & hth & hc & hx & hu & hl & hb & hr & ho).
+  set (s1 := fst (enqueue s i l k b)) in *.
+  apply (invb_frame s _ i p old B H); unfold with_thr; cbn [queue exit_ stopped threads tokens woken destroyed nclients thrs extw].
+  - rewrite hth. reflexivity.
+  - exact hn.
+  - exact P1.
+  - exact P2.
+  - rewrite he, hq, ht. intros X. rewrite X. apply (b_exit s B X).
+  - rewrite he, hd, hs. apply (b_destr s B).
+  - rewrite he, hs. apply (b_stopped s B).
+  - intros E Q. exfalso. apply (P3 E Q).
+  - rewrite hd. auto.
+  - rewrite hx. intros c. unfold G. cbn [clos]. fold (G cran 0 s1 c) (G cran_on 0 s1 c).
+    rewrite hr, ho. destruct (Nat.eqb c (length (clos s))); [lia|exact (b_ran s B c)].
+  - rewrite he. auto.
+  - rewrite P4. discriminate.
+  - intros l0 q f a E. subst p. discriminate.
+  - intros l0 q a E. subst p. discriminate.
+  - left. exact ht.
+  - rewrite hx. intros L C. apply (b_ext s B i old H L). auto.
+  - rewrite hx. auto.
+  - intros _. apply plain_det, P4.
+Qed.
+
+Lemma pc_after_class t a : is_client (pc_after t a) = is_client_after a.
+Proof. destruct a as [r| |[|] r]; cbn [pc_after is_client_after]; try reflexivity; [apply next_client_client|apply job_next_plain]. Qed.
+Lemma pc_after_plain t a : in_stop (pc_after t a) = false.
+Proof. destruct a as [r| |[|] r]; cbn [pc_after]; try reflexivity; [apply next_client_plain|apply job_next_plain]. Qed.
+Lemma fin_pc_class t f a : is_client (fin_pc t f a) = is_client_after a.
+Proof. destruct f; cbn [fin_pc is_client]; [reflexivity|apply pc_after_class]. Qed.
+
+(* the join loop ends (or never starts): common part of stop_mark / Join / SWait steps.
+   s0 is the state right after the critical section resp. the wake-up; the caller's old pc is `old`. *)
+Lemma invb_after_wait s s0 t l q first a old : InvB s -> T s t = Some old ->
+  thrs s0 = thrs s -> nclients s0 = nclients s -> clos s0 = clos s -> extw s0 = extw s ->
+  exit_ s0 = true -> queue s0 = [] -> threads s0 = [] -> destroyed s0 = destroyed s -> stopped s0 = stopped s ->
+  is_client old = is_client_after a ->
+  (l <> [] -> first = true) ->
+  (first = false -> is_dtor a = true -> stopped s = true) ->
+  (t = 0 -> first = false -> is_client_after a = true -> is_dtor a = true \/ pc_after t a <> CDone) ->
+  (nclients s <= t -> first = false -> pc_after t a <> WExit -> True) ->
+  (t < nclients s -> fin_pc t first a <> WExit) ->
+  (t < nclients s -> det_after a = false) ->
+  InvB (fst (after_wait s0 t l q first a)).
+Proof.
+  intros B H Et En Ec Ex EX Q0 Th0 Ed Es Cl LF DS D0 _ NW DET.
+  destruct (after_wait_shell s0 t l q first a _ eq_refl) as (E & K & Q & D & Th).
+  set (s' := fst (after_wait s0 t l q first a)) in *.
+  destruct E as (e1 & e2 & e3 & e4 & e5 & e6 & e7 & e8 & e9).
+  destruct K as (k1 & k2 & k3 & k4).
+  set (p := match l with [] => fin_pc t first a | _ => Join l q first a end) in *.
+  assert (PC : is_client p = is_client_after a).
+  { unfold p. destruct l; [apply fin_pc_class|reflexivity]. }
+  apply (invb_frame s _ t p old B H).
+  - rewrite Th, Et. reflexivity.
+  - congruence.
+  - intros L. rewrite PC, <- Cl. apply (b_class s B t old H). exact L.
+  - intros L. unfold p. destruct l; [apply NW, L|discriminate].
+  - intros _. rewrite Q, e3, Q0, Th0. destruct (_ && _ && _); auto.
+  - rewrite D, e1, e2, EX, Es, Ed. destruct l as [|w l]; cbn [andb].
+    + destruct first; cbn [negb andb].
+      * intros X. split; [reflexivity|]. apply (b_destr s B X).
+      * destruct (is_dtor a) eqn:DA.
+        -- intros _. split; [reflexivity|]. apply DS; reflexivity.
+        -- intros X. split; [reflexivity|]. apply (b_destr s B X).
+    + intros X. split; [reflexivity|]. apply (b_destr s B X).
+  - rewrite e1, EX. auto.
+  - intros -> Qp. rewrite D, Ed. unfold p in Qp. destruct l as [|w l]; [|discriminate]. cbn [andb].
+    destruct first; cbn [fin_pc] in Qp; [discriminate|]. cbn [negb andb].
+    destruct a as [r| |d r]; cbn [is_dtor].
+    + exfalso. destruct (D0 eq_refl eq_refl eq_refl) as [X|X]; [discriminate|]. apply X, Qp.
+    + reflexivity.
+    + cbn [pc_after] in Qp. destruct d; [discriminate|]. exfalso. apply (job_next_plain r). exact Qp.
+  - rewrite D, Ed. intros X. rewrite X. destruct (_ && _ && _); reflexivity.
+  - rewrite e8, Ex. apply (ranok_same s0).
+    + exact k2.
+    + exact k3.
+    + intros c. unfold G. rewrite Ec. exact (b_ran s B c).
+  - rewrite e1, EX. auto.
+  - rewrite e1, EX. auto.
+  - intros l0 q0 f a0 E. unfold p in E. destruct l as [|w l].
+    + exfalso. destruct first; cbn [fin_pc] in E; [discriminate|]. pose proof (pc_after_plain t a) as X. rewrite E in X. discriminate.
+    + inversion E; subst. apply LF. discriminate.
+  - intros l0 q0 a0 E. exfalso. unfold p in E. destruct l as [|w l]; [|discriminate].
+    destruct first; cbn [fin_pc] in E; [discriminate|]. pose proof (pc_after_plain t a) as X. rewrite E in X. discriminate.
+  - right. rewrite e3. exact Th0.
+  - rewrite e8, Ex, PC, <- Cl. intros L C. apply (b_ext s B t old H L C).
+  - rewrite e8, Ex. auto.
+  - intros L. unfold p. destruct l as [|w l]; [|cbn [det_of]; apply DET, L].
+    destruct first; cbn [fin_pc det_of]; [apply DET, L|]. apply plain_det, pc_after_plain.
+Qed.
+
+Lemma filter_ne_in (t : nat) (l : list nat) w : In w (filter (fun x => negb (Nat.eqb x t)) l) -> w <> t /\ In w l.
+Proof.
+  intros H. apply filter_In in H. destruct H as [H1 H2]. split; [|exact H1].
+  intros ->. rewrite Nat.eqb_refl in H2. discriminate.
+Qed.
+
+Lemma existsb_eqb_false t l : (forall w, In w l -> w <> t) -> existsb (Nat.eqb t) l = false.
+Proof.
+  induction l as [|x l IH]; intros F; [reflexivity|]. cbn [existsb].
+  destruct (Nat.eqb_spec t x) as [E|E]; [exfalso; apply (F x); [left; reflexivity|auto]|].
+  cbn. apply IH. intros w Hw. apply F. right. exact Hw.
+Qed.
+
+Lemma invb_stop_mark s t a old : InvB s -> T s t = Some old -> is_client old = is_client_after a ->
+  in_stop old = false ->
+  InvB (fst (stop_mark s t a)).
+Proof.
+  intros B H Cl NS. unfold stop_mark.
+  set (s1 := marked s (sleeper_ids s)).
+  set (a' := match a with AWorker _ r => AWorker (existsb (Nat.eqb t) (threads s)) r | _ => a end).
+  set (l := filter (fun w => negb (Nat.eqb w t)) (threads s)).
+  assert (CA : is_client_after a' = is_client_after a) by (unfold a'; destruct a; reflexivity).
+  assert (CU : is_cur a' = is_cur a) by (unfold a'; destruct a; reflexivity).
+  assert (DT : is_dtor a' = is_dtor a) by (unfold a'; destruct a; reflexivity).
+  assert (NF : exit_ s = true -> l = [] /\ queue s = []).
+  { intros X. destruct (b_exit s B X) as [Q Th]. unfold l. rewrite Th. auto. }
+  assert (DETA : t < nclients s -> det_after a' = false).
+  { intros L. unfold a'. destruct a as [r0| |d r0]; cbn [det_after]; auto.
+    rewrite existsb_eqb_false; auto. intros w Hw E. subst w. pose proof (b_thr s B t Hw). lia. }
+  destruct (negb (negb (exit_ s)) && negb (is_cur a) && negb (stopped s)) eqn:COND.
+  - (* waits for the first stop *)
+    apply andb_prop in COND. destruct COND as [COND C3]. apply andb_prop in COND. destruct COND as [C1 C2].
+    assert (X : exit_ s = true) by (destruct (exit_ s); [reflexivity|discriminate]).
+    destruct (NF X) as [L0 Q0].
+    cbn [fst]. apply (invb_frame s _ t (SWait l (queue s) a') old B H); unfold with_thr, s1, marked;
+      cbn [queue exit_ stopped threads tokens woken destroyed nclients thrs extw].
+    + reflexivity.
+    + reflexivity.
+    + intros L. cbn [is_client]. rewrite CA, <- Cl. apply (b_class s B t old H). exact L.
+    + discriminate.
+    + auto.
+    + intros D. split; [reflexivity|]. apply (b_destr s B D).
+    + auto.
+    + discriminate.
+    + auto.
+    + apply (ranok_same s); [reflexivity|reflexivity|exact (b_ran s B)].
+    + auto.
+    + auto.
+    + discriminate.
+    + intros l0 q0 a0 E. inversion E; subst. rewrite L0, Q0, CU. destruct (is_cur a); [discriminate|auto].
+    + right. reflexivity.
+    + cbn [is_client]. rewrite CA, <- Cl. intros L C. apply (b_ext s B t old H L C).
+    + auto.
+    + intros L. cbn [det_of]. apply DETA, L.
+  - apply (invb_after_wait s s1 t l (queue s) (negb (exit_ s)) a' old B H); try reflexivity.
+    + congruence.
+    + intros LN. destruct (exit_ s) eqn:X; [|reflexivity]. destruct (NF eq_refl) as [L0 _]. contradiction.
+    + intros F D. rewrite DT in D. destruct (exit_ s); [|discriminate]. cbn [negb andb] in COND.
+      destruct a; try discriminate. cbn [is_cur negb andb] in COND. destruct (stopped s); [reflexivity|discriminate].
+    + intros -> F C. unfold a'. destruct a as [r| |d r]; [right|left; reflexivity|discriminate].
+      cbn [pc_after]. apply next_client_plain. reflexivity.
+    + intros L. destruct (negb (exit_ s)); cbn [fin_pc]; [discriminate|].
+      unfold a'. destruct a as [r| |d r]; cbn [pc_after].
+      * apply next_client_plain.
+      * discriminate.
+      * rewrite existsb_eqb_false; [apply job_next_plain|]. intros w Hw E. subst w. pose proof (b_thr s B t Hw). lia.
+    + exact DETA.
+Qed.
+
+Lemma exit_pc_props s w : InvB s ->
+  (nclients s <= w -> is_client (exit_pc s w) = false) /\ (w < nclients s -> exit_pc s w <> WExit) /\
+  (w = 0 -> exit_pc s w <> CDone) /\ in_stop (exit_pc s w) = false /\
+  (is_client (exit_pc s w) = false -> nclients s <= w).
+Proof.
+  intros B. unfold exit_pc. pose proof (b_ncl s B) as N. destruct (Nat.ltb_spec w (nclients s)) as [L|L].
+  - destruct (next_client_plain w (nth w (cont s) [])) as (X1 & X2 & X3).
+    repeat split; auto; try lia. rewrite next_client_client. discriminate.
+  - repeat split; auto; try lia; try discriminate.
+Qed.
+
+(* the loop body of worker(); s0 is s or s after the wake-up / after entering worker() *)
+Lemma invb_worker_cs s s0 w old : InvB s -> T s w = Some old ->
+  clos s0 = clos s -> queue s0 = queue s -> thrs s0 = thrs s -> exit_ s0 = exit_ s -> threads s0 = threads s ->
+  destroyed s0 = destroyed s -> nclients s0 = nclients s -> stopped s0 = stopped s -> cont s0 = cont s \/ True ->
+  (forall z, In z (extw s) -> In z (extw s0)) ->
+  (w < nclients s -> In w (extw s0)) -> in_stop old = false ->
+  InvB (fst (worker_cs s0 w)).
+Proof.
+  intros B H Ecl Eq Et Ee Eth Ed En Es _ Ex1 Ex2 NS.
+  pose proof (T_lt s w old H) as WL.
+  assert (B0ncl : nclients s0 = nclients s) by exact En.
+  assert (GEN : forall p s2, thrs s2 = thrs s0 -> nclients s2 = nclients s0 -> threads s2 = threads s0 ->
+            exit_ s2 = exit_ s0 -> destroyed s2 = destroyed s0 -> stopped s2 = stopped s0 -> extw s2 = extw s0 ->
+            (queue s2 = [] \/ exit_ s0 = false) ->
+            (nclients s <= w -> is_client p = false) -> (w < nclients s -> p <> WExit) -> (w = 0 -> p <> CDone) ->
+            in_stop p = false ->
+            RanOK s2 (length (thrs s)) (nclients s) (extw s0) ->
+            InvB (with_thr s2 w p)).
+  { intros p s2 E1 E2 E3 E4 E5 E6 E7 E8 P1 P2 P3 P4 R.
+    apply (invb_frame s _ w p old B H); unfold with_thr; cbn [queue exit_ stopped threads tokens woken destroyed nclients thrs extw].
+    - rewrite E1, Et. reflexivity.
+    - congruence.
+    - exact P1.
+    - exact P2.
+    - rewrite E4, E3, Eth. intros X. destruct E8 as [E8|E8]; [|congruence]. split; [exact E8|].
+      apply (b_exit s B). congruence.
+    - rewrite E5, E4, E6, Ed, Ee, Es. apply (b_destr s B).
+    - rewrite E6, E4, Es, Ee. apply (b_stopped s B).
+    - intros E Q. exfalso. apply (P3 E Q).
+    - rewrite E5, Ed. auto.
+    - rewrite E7. intros c. unfold G. cbn [clos]. apply R.
+    - rewrite E4, Ee. auto.
+    - rewrite P4. discriminate.
+    - intros l q f a E. subst p. discriminate.
+    - intros l q a E. subst p. discriminate.
+    - left. congruence.
+    - rewrite E7. intros L _. apply Ex2, L.
+    - rewrite E7. exact Ex1.
+    - intros _. apply plain_det, P4. }
+  assert (RAN : RanOK s0 (length (thrs s)) (nclients s) (extw s0)).
+  { apply (ranok_ext s0 _ _ (extw s)); [|exact Ex1]. intros c. unfold G. rewrite Ecl. exact (b_ran s B c). }
+  unfold worker_cs. destruct (exit_ s0) eqn:EX.
+  - cbn [fst].
+    assert (EP : exit_pc s0 w = exit_pc s w \/ True) by auto.
+    destruct (exit_pc_props s w B) as (X1 & X2 & X3 & X4 & X5).
+    assert (EPQ : forall P : pc -> Prop, (nclients s0 = nclients s) -> True) by auto.
+    unfold exit_pc. rewrite En.
+    destruct (Nat.ltb_spec w (nclients s)) as [L|L].
+    + destruct (next_client_plain w (nth w (cont s0) [])) as (Y1 & Y2 & Y3).
+      apply GEN; auto; try lia. left. rewrite Eq. apply (b_exit s B). congruence.
+    + apply GEN; auto; try discriminate; try lia. left. rewrite Eq. apply (b_exit s B). congruence.
+  - destruct (queue s0) as [|c0 r] eqn:QQ.
+    + cbn [fst]. apply GEN; auto; try discriminate.
+    + unfold run_job. replace (clos (with_queue s0 r)) with (clos s0) by reflexivity.
+      destruct (nth_error (clos s0) c0) as [x|] eqn:E.
+      * cbn [fst]. destruct (job_next_plain (cb x)) as (J1 & J2 & J3 & J4).
+        apply (GEN (job_next (cb x)) (with_clos (with_queue s0 r) (set_nth (clos s0) c0
+                 (mkClo (clbl x) (ck x) (cb x) (S (cran x)) w (cdrop x) (ccanc x))))); auto.
+        intros c. unfold G. unfold with_clos. cbn [clos].
+        assert (L : c0 < length (clos s0)) by (apply nth_error_Some; congruence).
+        destruct (Nat.eqb_spec c0 c) as [Q|Q].
+        -- subst c. rewrite nth_error_set_nth_same by exact L. cbn [cran cran_on]. intros _.
+           split; [exact WL|]. destruct (Nat.ltb_spec w (nclients s)); [right; auto|left; assumption].
+        -- rewrite nth_error_set_nth_other by exact Q. exact (RAN c).
+      * cbn [fst]. apply (GEN WIdle (with_queue s0 r)); auto; discriminate.
+Qed.
+
+(* InvB does not read tokens / woken *)
+Lemma inv_b_wake s i : InvB s -> InvB (wake s i).
+Proof.
+  intros [B1 B2 B3 B4 B5 B6 B7 B8 B9 B10 B11 B12 B13].
+  unfold wake. destruct (is_woken s i); constructor; auto.
+Qed.
+
+Lemma invb_plain s i p old : InvB s -> T s i = Some old -> in_stop p = false ->
+  (nclients s <= i -> is_client p = false) -> (i < nclients s -> p <> WExit) -> (i = 0 -> p <> CDone) ->
+  (is_client p = false -> is_client old = false) -> InvB (with_thr s i p).
+Proof.
+  intros B H NS P1 P2 P3 P7. apply (invb_same s i p old B H); auto.
+  - rewrite NS. discriminate.
+  - intros l q f a E. rewrite E in NS. discriminate.
+  - intros l q a E. rewrite E in NS. discriminate.
+  - intros _. apply plain_det, NS.
+Qed.
+
+Theorem invb_core s i : InvB s -> enabled s i = true -> InvB (cstep s i).
+Proof.
+  intros B EN. unfold cstep, core. unfold enabled in EN.
+  destruct (nth_error (thrs s) i) as [p|] eqn:H; [|discriminate].
+  pose proof (b_class s B i p H) as [CL1 CL2].
+  destruct p as [prog| | | | | |l k r|l r|l r|r|q r| |l q f a|l q a|a].
+  - (* client operation *)
+    assert (LT : i < nclients s) by (apply (client_lt s i _ B H); reflexivity).
+    destruct prog as [|[l k b| |] r].
+    + cbn [fst]. destruct (next_client_plain i []) as (X1 & X2 & X3).
+      apply (invb_plain s i _ (CAt []) B H); auto; try lia. rewrite next_client_client. discriminate.
+    + pose proof (invb_enqueue s i l k b (next_client i r) _ B H) as E.
+      destruct (enqueue s i l k b) as [s1 e]. cbn [fst] in *. destruct (next_client_plain i r) as (X1 & X2 & X3).
+      apply E; auto; try lia. rewrite next_client_client. discriminate.
+    + pose proof (invb_stop_mark s i (AClient r) _ B H) as E.
+      destruct (stop_mark s i (AClient r)) as [s1 e]. cbn [fst] in *. apply E; auto.
+    + pose proof (invb_worker_cs s (with_ext s i r) i _ B H) as E.
+      destruct (worker_cs (with_ext s i r) i) as [s1 e]. cbn [fst] in *.
+      apply E; auto; unfold with_ext; cbn [extw]; intros; try (right; assumption); left; reflexivity.
+  - cbn [fst]. apply (invb_plain s i CDtor CXWait B H); auto; try discriminate.
+  - pose proof (invb_stop_mark s i ADtor _ B H) as E.
+    destruct (stop_mark s i ADtor) as [s1 e]. cbn [fst] in *. apply E; auto.
+  - discriminate.
+  - pose proof (invb_worker_cs s s i WIdle B H) as E.
+    destruct (worker_cs s i) as [s1 e]. cbn [fst] in *. apply E; auto.
+    intros L. apply (b_ext s B i WIdle H L). reflexivity.
+  - pose proof (invb_worker_cs s (wake s i) i WSleep B H) as E.
+    destruct (worker_cs (wake s i) i) as [s1 e]. cbn [fst] in *.
+    assert (WX : extw (wake s i) = extw s) by (unfold wake; destruct (is_woken s i); reflexivity).
+    apply E; auto; try (unfold wake; destruct (is_woken s i); reflexivity).
+    + rewrite WX. auto.
+    + rewrite WX. intros L. apply (b_ext s B i WSleep H L). reflexivity.
+  - pose proof (invb_enqueue s i l k [] (job_next r) _ B H) as E.
+    destruct (enqueue s i l k []) as [s1 e]. cbn [fst] in *. destruct (job_next_plain r) as (J1 & J2 & J3 & J4).
+    apply E; auto.
+  - pose proof (invb_enqueue s i l KHop r WIdle _ B H) as E.
+    destruct (enqueue s i l KHop r) as [s1 e]. cbn [fst] in *. apply E; auto; discriminate.
+  - cbn [fst]. destruct (job_next_plain r) as (J1 & J2 & J3 & J4).
+    apply (invb_plain s i _ (WPeek l r) B H); destruct (exit_ s); auto; discriminate.
+  - pose proof (invb_stop_mark s i (AWorker false r) _ B H) as E.
+    destruct (stop_mark s i (AWorker false r)) as [s1 e]. cbn [fst] in *. apply E; auto.
+  - cbn [fst]. destruct (job_next_plain r) as (J1 & J2 & J3 & J4).
+    apply (invb_plain s i _ (WQry q r) B H); auto.
+  - discriminate.
+  - (* join loop *)
+    assert (EXT : exit_ s = true) by (apply (b_join s B i _ H); reflexivity).
+    destruct (b_exit s B EXT) as [Q0 Th0].
+    assert (F : f = true) by (eapply (b_first s B); exact H). subst f.
+    assert (DT : i < nclients s -> det_after a = false) by (intros L; apply (b_det s B i _ H L)).
+    assert (SE : InvB (fst (after_wait s i [] q true a))).
+    { apply (invb_after_wait s s i [] q true a _ B H); auto; try discriminate. }
+    destruct l as [|w0 [|w1 l]].
+    + unfold after_wait in SE. destruct (stop_end s i q true a) as [s1 e]. exact SE.
+    + unfold after_wait in SE. destruct (stop_end s i q true a) as [s1 e]. exact SE.
+    + cbn [fst]. apply (invb_same s i _ (Join (w0 :: w1 :: l) q true a) B H); auto; try discriminate.
+      intros l0 q0 f a0 E. inversion E. reflexivity.
+  - (* woken inside stop() *)
+    assert (EXT : exit_ s = true) by (apply (b_join s B i _ H); reflexivity).
+    destruct (b_exit s B EXT) as [Q0 Th0].
+    destruct (b_swait s B i l q a H) as (L0 & Q1 & CU). subst l q.
+    assert (DT : i < nclients s -> det_after a = false) by (intros L; apply (b_det s B i _ H L)).
+    assert (WK : forall A (f : st -> A), (forall x n, f (with_tokens x n) = f x) -> (forall x w, f (with_woken x w) = f x) -> f (wake s i) = f s).
+    { intros A f F1 F2. unfold wake. destruct (is_woken s i); auto. }
+    destruct (stopped s) eqn:ST.
+    + pose proof (invb_after_wait s (wake s i) i [] [] false a _ B H) as E.
+      destruct (after_wait (wake s i) i [] [] false a) as [s1 e]. cbn [fst] in *.
+      assert (W1 : thrs (wake s i) = thrs s) by (apply WK; reflexivity).
+      assert (W2 : nclients (wake s i) = nclients s) by (apply WK; reflexivity).
+      assert (W3 : clos (wake s i) = clos s) by (apply WK; reflexivity).
+      assert (W4 : extw (wake s i) = extw s) by (apply WK; reflexivity).
+      assert (W5 : exit_ (wake s i) = exit_ s) by (apply WK; reflexivity).
+      assert (W6 : queue (wake s i) = queue s) by (apply WK; reflexivity).
+      assert (W7 : threads (wake s i) = threads s) by (apply WK; reflexivity).
+      assert (W8 : destroyed (wake s i) = destroyed s) by (apply WK; reflexivity).
+      assert (W9 : stopped (wake s i) = stopped s) by (apply WK; reflexivity).
+      apply E; auto; try congruence.
+      * intros -> _ C. destruct a as [r| |d r]; [right|left; reflexivity|discriminate C]. cbn [pc_after]. apply next_client_plain. reflexivity.
+      * intros L. cbn [fin_pc]. destruct a as [r| |d r]; cbn [pc_after]; try discriminate. apply next_client_plain.
+    + cbn [fst]. apply (inv_b_wake s i). exact B.
+  - (* the first stop sets _stopped *)
+    assert (EXT : exit_ s = true) by (apply (b_join s B i _ H); reflexivity).
+    destruct (b_exit s B EXT) as [Q0 Th0].
+    assert (DT : i < nclients s -> det_after a = false) by (intros L; apply (b_det s B i _ H L)).
+    destruct (returned_shell (finished s (sleeper_ids s)) i a _ eq_refl) as (E & K & Q & D & Th).
+    destruct (returned (finished s (sleeper_ids s)) i a) as [s1 e]. cbn [fst] in *.
+    destruct E as (e1 & e2 & e3 & e4 & e5 & e6 & e7 & e8 & e9). destruct K as (k1 & k2 & k3 & k4).
+    unfold finished in *. cbn [queue exit_ stopped threads tokens woken destroyed nclients thrs extw cont uad clos] in *.
+    apply (invb_frame s _ i (pc_after i a) (SFin a) B H); auto.
+    + intros L. rewrite pc_after_class. apply CL1, L.
+    + intros L. destruct a as [r| |d r]; cbn [pc_after]; try discriminate; [apply next_client_plain|].
+      specialize (DT L). cbn [det_after] in DT. destruct d; [discriminate DT|]. apply job_next_plain.
+    + rewrite Q, e3. intros _. rewrite Q0, Th0. destruct (is_dtor a); auto.
+    + rewrite D, e1, e2. intros _. auto.
+    + rewrite e1. auto.
+    + intros -> Qp. rewrite D. destruct a as [r| |d r]; cbn [is_dtor pc_after] in *; auto.
+      * exfalso. destruct (next_client_plain 0 r) as (_ & _ & X). apply (X eq_refl Qp).
+      * destruct d; [discriminate|]. exfalso. eapply job_next_plain, Qp.
+    + rewrite D. intros X. rewrite X. destruct (is_dtor a); reflexivity.
+    + rewrite e8. apply (ranok_same s); [exact k2|exact k3|exact (b_ran s B)].
+    + rewrite e1. auto.
+    + rewrite e1. auto.
+    + intros l0 q0 f0 a0 E. pose proof (pc_after_plain i a) as X. rewrite E in X. discriminate.
+    + intros l0 q0 a0 E. pose proof (pc_after_plain i a) as X. rewrite E in X. discriminate.
+    + rewrite e8, pc_after_class. intros L C. apply (b_ext s B i _ H L C).
+    + rewrite e8. auto.
+    + intros _. apply plain_det, pc_after_plain.
+Qed.
